@@ -31,7 +31,9 @@ RULE = ('ba: op sequences (set/del/merge_in, up to 30 ops) on a REAL BoundedAttr
         '(order(), inactive, raising, None-returning), resource read back through convert_resource; sched: 2-3 writer '
         'THREADS on one real container (new / existing / same / invalid keys, capacity 0,1,2,n,None, one free slot or full), '
         'a random one of all interleavings of their two regions (arrive at the lock | pass through it) forced by a gated '
-        'stand-in for BoundedAttributes._lock. agg: get_aggregated_resources with an initial resource and 0-4 detectors '
+        'stand-in for BoundedAttributes._lock. scale: resources with 130 / 200 / 700 / 2000 distinct attributes in total over '
+        'environment + code + 1-3 plugin resources, through Resource.create (fresh interpreter) or the real Deep.start (2000: oracle '
+        'only). start providers: raise / return None / return a dict / return an object without attributes / inactive. agg: get_aggregated_resources with an initial resource and 0-4 detectors '
         '(returning resources / raising, with and without raise_on_error), the result also read through to_json, ==, hash, '
         'len / iteration / copy of its attributes. start: a third of the provider sets with >= 2 providers has two or three providers '
         'with the SAME class name (= plugin name) from different modules. env: DeepResourceDetector().detect() in-process on COMPOSED texts of '
@@ -328,6 +330,39 @@ def g_create(rng):
             'url': rng.choice(URLS) if given is not None else None, 'plugins': plugins}
 
 
+SCALE_TOTALS = [130, 200, 700, 2000]
+
+
+def scale_kvs(prefix, n):
+    return [[{'s': '%s%04d' % (prefix, i)}, {'t': 'str', 'v': 'v%d' % i}] for i in range(n)]
+
+
+def g_scale(rng, total=None):
+    """SCALE: a resource with 130 / 200 / 700 / 2000 distinct attributes in total, spread over the environment, the code
+    dict and plugin resources (some keys shared, so precedence shows), through Resource.create + merges (fresh
+    interpreter) or the real Deep.start — the mandatory keys and 'later overrides earlier' hold for EVERY size"""
+    total = total or rng.choice(SCALE_TOTALS)
+    n_env = min(40, total // 5)
+    n_plug = rng.choice([1, 2, 3])
+    via_start = rng.random() < 0.5
+    n_code = 0 if via_start else total // 3
+    per = (total - n_env - n_code) // n_plug + 1
+    env = {'DEEP_RESOURCE_ATTRIBUTES': ','.join('e%04d=x%d' % (i, i) for i in range(n_env))}
+    if rng.random() < 0.5:
+        env['DEEP_SERVICE_NAME'] = 'scale-svc'
+    plugins = []
+    for j in range(n_plug):
+        attrs = scale_kvs('p%d_' % j, per) + [[{'s': 'e0000'}, {'t': 'str', 'v': 'plugin%d' % j}]]
+        plugins.append({'attrs': attrs, 'url': None})
+    if via_start:
+        for p in plugins:
+            p.update(order=None, behaviour='ok')
+        return {'kind': 'start', 'env': env, 'unmodelled_env': False, 'plugins': plugins, 'python_plugin': False,
+                'scale': total}
+    return {'kind': 'create', 'env': env, 'unmodelled_env': False, 'given': scale_kvs('c', n_code) +
+            [[{'s': 'e0001'}, {'t': 'str', 'v': 'code'}]], 'url': None, 'plugins': plugins, 'scale': total}
+
+
 def g_blank_sn(rng):
     """separate stream (finding candidate): a plugin resource whose service.name is empty / falsy"""
     c = g_create(rng) if rng.random() < 0.5 else g_start(rng)
@@ -365,7 +400,8 @@ def g_start(rng, none_seq=False):
                 {'t': 'str', 'v': 'a'}, rng.choice([{'t': 'none'}, codec.enc_scalar(b'\xff')])]}]]
         plugins.append({'attrs': r['attrs'], 'url': r['url'] if rng.random() < 0.3 else None,
                         'order': rng.choice([None, 0, 0, 1, 2, -1]),
-                        'behaviour': rng.choice(['ok', 'ok', 'ok', 'ok', 'raise', 'none', 'inactive'])})
+                        # raise / returns None / returns a truthy dict / returns an object without .attributes / inactive
+                        'behaviour': rng.choice(['ok', 'ok', 'ok', 'ok', 'ok', 'raise', 'none', 'dict', 'object', 'inactive'])})
     if len(plugins) >= 2 and rng.random() < 0.3:
         # two (or three) DIFFERENT providers with the same class name from different modules (teamtools.ResourcePlugin and
         # platformlib.ResourcePlugin): each is a configured provider, each one's resource is merged, in order
@@ -383,6 +419,8 @@ def gen(rng, tier):
         k += 1
         if k % 160 == 80:
             yield g_blank_sn(rng)
+        elif k % 200 == 30:
+            yield g_scale(rng, SCALE_TOTALS[(k // 200) % 4])       # 130, 200, 700, 2000 in turn
         elif k % 16 == 0:
             yield g_create(rng)
         elif k % 64 == 24:
@@ -445,6 +483,11 @@ def corpus():
             {'attrs': [[S('p'), {'t': 'seq', 'xs': [I(1), I(2)], 'as': 'list'}]], 'url': None, 'order': 1,
              'behaviour': 'ok'},
             {'attrs': [[S('p'), T('first')]], 'url': None, 'order': 0, 'behaviour': 'ok'}]},
+        # a provider that RETURNS something unmergeable (a dict) loses only its own contribution
+        {'kind': 'start', 'env': {}, 'unmodelled_env': False, 'python_plugin': False, 'plugins': [
+            {'attrs': [[S('first'), T('1')]], 'url': None, 'order': 0, 'behaviour': 'ok'},
+            {'attrs': [[S('lost'), T('x')]], 'url': None, 'order': 1, 'behaviour': 'dict'},
+            {'attrs': [[S('third'), T('3')]], 'url': None, 'order': 2, 'behaviour': 'ok'}]},
         # two different providers with the same class name (other modules): both are configured, both are merged
         {'kind': 'start', 'env': {}, 'unmodelled_env': False, 'python_plugin': False, 'plugins': [
             {'attrs': [[S('team'), T('tools')], [S('shared'), T('one')]], 'url': None, 'order': None, 'behaviour': 'ok',
@@ -708,6 +751,10 @@ def run_start(case):
                         raise RuntimeError('plugin resource failure')
                     if spec['behaviour'] == 'none':
                         return None
+                    if spec['behaviour'] == 'dict':
+                        return {'not': 'a resource'}       # truthy, cannot be merged
+                    if spec['behaviour'] == 'object':
+                        return object()
                     return Resource(codec.mk_dict(spec['attrs']), spec['url'])
 
                 def order(self):
@@ -1366,8 +1413,8 @@ def model_request(case, obs):
     if k == 'merge':
         return {'kind': 'merge', 'chain': [{'attrs': m_kvs(r['attrs']), 'url': r['url']} for r in case['chain']]}
     if k in ('create', 'start'):
-        if case.get('unmodelled_env'):
-            return None
+        if case.get('unmodelled_env') or case.get('scale', 0) > 800:
+            return None     # (2000 attributes: the list-based model is quadratic; judged by the oracle only)
         if k == 'create':
             plugins = [{'attrs': m_kvs(p['attrs']), 'url': p['url']} for p in case['plugins']]
             given = None if case['given'] is None else m_kvs(case['given'])
@@ -1470,6 +1517,8 @@ def label(case, obs):
         return k + '/raised'
     sn = as_dict(obs['final']['attrs']).get(json.dumps({'s': 'service.name'}, sort_keys=True), {})
     fb = str(sn.get('v', '')).startswith('unknown_service')
+    if case.get('scale'):
+        return f'{k}/scale-{case["scale"]}'
     return f'{k}/' + ('fallback' if fb else 'named') + ('/unmodelled-env' if case.get('unmodelled_env') else '') \
         + ('/none-in-seq' if k == 'start' and any(none_in_seq(p['attrs']) for p in case['plugins']) else '')
 
